@@ -249,6 +249,7 @@ func init() {
 		ex.expectPanic = args[0].(*Term).IsTrue()
 		return nil
 	})
+	reg(vr+"SkipNative", func(ex *Exec, fn *ssa.Function, args []Value) Value { return nil })
 	reg(vr+"Stop", func(ex *Exec, fn *ssa.Function, args []Value) Value {
 		panic(pathEnd{endStop, "stop"})
 	})
